@@ -6,6 +6,7 @@ import (
 	"go/token"
 	"go/types"
 	"sort"
+	"regexp"
 	"strings"
 
 	"golang.org/x/tools/go/ssa"
@@ -102,7 +103,7 @@ func ruleC11(r *Report) {
 	r.Rule("C11.nilsrc", "every dereference/success-return of a maybe-nil lookup under xmlenc.Decrypt and the SP's decrypt step is nil-checked", 4)
 	r.Rule("C11.bounds", "every index/slice under xmlenc.Decrypt is justified by a guard over the same length expression", 4)
 	r.Rule("C11.precond", "CryptBlocks / NewCBCDecrypter / AEAD.Open preconditions and comma-ok discipline on key and registry lookups", 4)
-	r.Rule("C11.certmatch", "RSA key validator: when an X509Certificate is embedded, invalid PEM/DER, a non-RSA key, or modulus/exponent mismatch is a reject on every path to the success return", 2)
+	r.Rule("C11.certmatch", "RSA key validator: when an X509Certificate is embedded, invalid PEM/DER, a non-RSA key, or modulus/exponent mismatch is a reject on every path to the success return", 1)
 	r.Rule("C11.gcm-auth", "the plaintext return of the GCM decrypter is dominated by the nil edge of AEAD.Open on the cipher value (no fallback path)", 1)
 	r.Rule("C11.padding", "stripPadding rejects exactly len<1, pad<1, pad>len (a full block of padding is accepted)", 1)
 	r.Rule("C11.errdrop", "no error result is discarded under xmlenc.Decrypt", 1)
@@ -567,13 +568,16 @@ func checkInflate(r *Report, a *Analysis, sc *Scope, rule string) {
 				rc := fmt.Sprintf("%s: inner Read guarded by the limit", p.FnName(read))
 				okGuard := false
 				var detail string
+				counter := "" // the wrapper's running-count field, read off the guard
 				for _, name := range B.Support(fc.Cond(b)) {
 					ai := a.Atoms[name]
 					if ai == nil || ai.Kind != "lt" {
 						continue
 					}
-					// lt(c:LIMIT, (count+len(p)))  must be false here
-					if n, ok := parseConstAP(ai.Args[0]); ok && strings.Contains(ai.Args[1], "+len(") && strings.Contains(ai.Args[1], ".count") {
+					// lt(c:LIMIT, (<wrapper>.<counter>+len(p)))  must be false here
+					fld := inflateCounterField(ai.Args[1], wrapper.Obj().Name())
+					if n, ok := parseConstAP(ai.Args[0]); ok && fld != "" {
+						counter = fld
 						if fc.Implied(b, B.Not(B.Var(name))) {
 							if n == 10*1024*1024 {
 								okGuard = true
@@ -594,7 +598,7 @@ func checkInflate(r *Report, a *Analysis, sc *Scope, rule string) {
 				for _, bb := range read.Blocks {
 					for _, i2 := range bb.Instrs {
 						if st, ok := i2.(*ssa.Store); ok {
-							if fa, ok := st.Addr.(*ssa.FieldAddr); ok && fieldName(fa.X.Type(), fa.Field) == "count" {
+							if fa, ok := st.Addr.(*ssa.FieldAddr); ok && counter != "" && fieldName(fa.X.Type(), fa.Field) == counter {
 								if bo, ok := st.Val.(*ssa.BinOp); ok && bo.Op == token.ADD {
 									upd = true
 								}
@@ -634,6 +638,23 @@ func checkInflate(r *Report, a *Analysis, sc *Scope, rule string) {
 			}
 		}
 	}
+}
+
+// inflateCounterField: for the sum "(<Wrapper>.<f>+len(...))" (either operand order) the field name f.
+var inflateSumRE = regexp.MustCompile(`^\((?:(\w+)\.(\w+)\+len\([^()]*\)|len\([^()]*\)\+(\w+)\.(\w+))\)$`)
+
+func inflateCounterField(ap, wrapper string) string {
+	m := inflateSumRE.FindStringSubmatch(ap)
+	if m == nil {
+		return ""
+	}
+	if m[1] == wrapper {
+		return m[2]
+	}
+	if m[3] == wrapper {
+		return m[4]
+	}
+	return ""
 }
 
 // ---------------------------------------------------------------------------------------------
@@ -694,7 +715,7 @@ func checkIRE(r *Report, a *Analysis, sc *Scope, rule string) {
 					continue
 				}
 				for _, res := range ret.Results {
-					if ex, ok := res.(*ssa.Extract); ok {
+					if ex, ok := Resolve(res).(*ssa.Extract); ok {
 						if c, ok := ex.Tuple.(*ssa.Call); ok {
 							if scf := c.Call.StaticCallee(); scf != nil && p.InModule(scf) && sameSig(scf, fn) {
 								work = append(work, scf)
@@ -830,7 +851,8 @@ func isIREValue(fc *FuncCtx, b *ssa.BasicBlock, ev ssa.Value, ire *types.Named, 
 	B := fc.A.B
 	switch x := ev.(type) {
 	case *ssa.MakeInterface:
-		if al, ok := x.X.(*ssa.Alloc); ok && namedOf(al.Type()) == ire {
+		// the error object: a local literal, or (inside a local fail-closure) the captured variable holding one
+		if al, ok := capturedValue(x.X).(*ssa.Alloc); ok && namedOf(al.Type()) == ire {
 			// PrivateErr must have been stored on this path: a store in this block or a dominating one
 			for _, bb := range fc.Fn.Blocks {
 				for _, in := range bb.Instrs {
@@ -839,7 +861,7 @@ func isIREValue(fc *FuncCtx, b *ssa.BasicBlock, ev ssa.Value, ire *types.Named, 
 						continue
 					}
 					fa, ok := st.Addr.(*ssa.FieldAddr)
-					if !ok || fa.X != ssa.Value(al) || fieldName(fa.X.Type(), fa.Field) != "PrivateErr" {
+					if !ok || capturedValue(fa.X) != ssa.Value(al) || fieldName(fa.X.Type(), fa.Field) != "PrivateErr" {
 						continue
 					}
 					if bb == b || bb.Dominates(b) {
@@ -945,6 +967,45 @@ func checkCertMatch(r *Report, sc *Scope, rule string) {
 	if len(cands) == 0 {
 		panic(unresolved{"role RSA key validator (xmlenc function under Decrypt calling big.Int.Cmp)"})
 	}
+	// the comparison may sit in a helper of the validator: the validator is the function that looks the embedded
+	// certificate up; climb from the comparing function to its only caller until that lookup is found
+	looksUpCert := func(fn *ssa.Function) bool {
+		for _, b := range fn.Blocks {
+			for _, in := range b.Instrs {
+				if c, ok := in.(*ssa.Call); ok {
+					if scf := c.Call.StaticCallee(); scf != nil && strings.HasSuffix(scf.String(), "etree.Element).FindElement") {
+						for _, a := range c.Call.Args {
+							if k, ok := a.(*ssa.Const); ok && k.Value != nil && k.Value.Kind() == constant.String && strings.HasSuffix(constant.StringVal(k.Value), "X509Certificate") {
+								return true
+							}
+						}
+					}
+				}
+			}
+		}
+		return false
+	}
+	seenC := map[*ssa.Function]bool{}
+	var climbed []*ssa.Function
+	for _, fn := range cands {
+		for i := 0; i < 3 && !looksUpCert(fn); i++ {
+			var callers []*ssa.Function
+			for _, cs := range p.StaticCallersOf(fn) {
+				if cs.Caller.Pkg == fn.Pkg && (len(callers) == 0 || callers[len(callers)-1] != cs.Caller) {
+					callers = append(callers, cs.Caller)
+				}
+			}
+			if len(callers) != 1 {
+				break
+			}
+			fn = callers[0]
+		}
+		if !seenC[fn] {
+			seenC[fn] = true
+			climbed = append(climbed, fn)
+		}
+	}
+	cands = climbed
 	for _, fn := range cands {
 		a := NewAnalysis(p)
 		a.Inline = func(f *ssa.Function) bool {
